@@ -2,6 +2,8 @@ import IOptProofs.EvFin
 /-!
 # Kernel evaluation of the certificates `EvCert n`, n = 2..5, and the resulting `EvFacts n`
 
+(`n = 6, 7`: `EvFinCert6.lean`, `EvFinCert7.lean`; the dispatch on `n`: `EvDimFacts.lean`.)
+
 `decide +kernel`: the kernel evaluates the Boolean certificate (no extra axioms, no `native_decide`).
 Thanks to the reflection-equivariance used in `EvFin.lean` the certificate has only `n · 2^n` rows,
 so no chunking is needed (all four take a few seconds together).
@@ -18,14 +20,5 @@ theorem evFacts2 : EvFacts 2 := evFacts_of_cert evCert2
 theorem evFacts3 : EvFacts 3 := evFacts_of_cert evCert3
 theorem evFacts4 : EvFacts 4 := evFacts_of_cert evCert4
 theorem evFacts5 : EvFacts 5 := evFacts_of_cert evCert5
-
-/-- the finite facts hold in every dimension the library supports with the curve (N = 2..5) -/
-theorem evFacts_of_mem {n : Nat} (hn : n ∈ [2, 3, 4, 5]) : EvFacts n := by
-  simp only [List.mem_cons, List.not_mem_nil, or_false] at hn
-  rcases hn with rfl | rfl | rfl | rfl
-  · exact evFacts2
-  · exact evFacts3
-  · exact evFacts4
-  · exact evFacts5
 
 end Ev
